@@ -103,6 +103,21 @@ CLAIMS = {
    note=NOTE + "C09: two genuine defects found by this check and fixed in /repo (3.1415 literal in the PSF ramps; transposed, half-pixel-shifted pixel point source).",
    technique="Lean 4 theorems (trigonometric/algebraic symmetry identities, sum exchange, DFT shift theorem termwise) + render correspondence + float32 transformed-pair oracle",
    design="7/C09"),
+ "C03": dict(
+   text=("Proof (ℝ) for the exact clauses, on a code-level model whose PSF conventions are regenerated from the source: obligations that both "
+         "phase ramps use π and that the pixel renderer addresses the stamp rows-by-y centred on (s−1)/2 (both failed on the original tree: two "
+         "genuine defects, fixed); under these facts a pixel-renderer point source at an integer pixel is exactly flux × the stamp embedded with its "
+         "centre on that pixel, orientation preserved, zero elsewhere (all odd stamp sizes, all positions; zero-padded bilinear interpolation at "
+         "integers reads the array entry), the unrepaired addressing provably violates it; a Fourier/hybrid point source at an integer pixel is an "
+         "exact whole-pixel shift of the one at the origin for every PSF transform (DFT shift theorem proved termwise on the synthesis sum); a 1×1 "
+         "unit PSF has transform ≡ 1 whatever the ramp constant and returns the Fourier-space scene unchanged; PSF_fft(0,0) = ΣPSF; conv_img is "
+         "linear. Not proved (classical, validated numerically at 1e-9 by the tie and by the oracle against direct spatial convolution): that the "
+         "DFT pipeline equals circular convolution with the re-centred stamp. Tie: PSF_fft element-wise, conv_img on random images, point sources of "
+         "all renderers on integer/fractional positions, odd/even/non-square/1×1 stamps. Oracle: the property's embedded-stamp (2e-5), centroid "
+         "(0.02 px), unit-PSF and direct-convolution criteria in float32."),
+   note=NOTE + "C03: known finding recorded (Fourier/hybrid point sources with PSF stamps that are not band-limited ring and miss the centroid tolerance); map_coordinates modelled as zero-padded bilinear interpolation.",
+   technique="Lean 4 theorems (bilinear interpolation at integers, DFT shift theorem, unit-PSF transform) on a model with regenerated PSF conventions as proof obligations + stage-wise correspondence (PSF_fft, conv_img, renders) + float32 oracle",
+   design="7/C03"),
 }
 
 checks, na = [], []
